@@ -37,5 +37,7 @@ def write(prop, tier, seed, out, wall):
         'wall_s': round(wall, 2),
         'violations': len(out['violations']),
     }
-    os.makedirs(os.path.join(ROOT, 'evidence'), exist_ok=True)
-    json.dump(doc, open(os.path.join(ROOT, 'evidence', prop + '.json'), 'w'), indent=1)
+    # self-tests on scratch trees (tools/selftest.py) redirect their evidence so that evidence/ always describes /repo
+    edir = os.environ.get('VERIF_EVIDENCE_DIR') or os.path.join(ROOT, 'evidence')
+    os.makedirs(edir, exist_ok=True)
+    json.dump(doc, open(os.path.join(edir, prop + '.json'), 'w'), indent=1)
